@@ -18,6 +18,9 @@ def series(rows: List[Dict], name: str) -> List:
         return [r["open"] < r["close"] for r in rows]
     if name == "negative":
         return [r["open"] > r["close"] for r in rows]
+    if "." in name:
+        base, field = name.split(".", 1)
+        return [(r.get("inds", {}).get(base) or {}).get(field) for r in rows]
     return [r.get("inds", {}).get(name) for r in rows]
 
 
@@ -138,7 +141,7 @@ def spec_term(spec: Dict, ind, rows: List[Dict]) -> str:
     for r in rows:
         x = None
         if src is not None:
-            x = r[src] if src in ("open", "high", "low", "close", "volume") else r.get("inds", {}).get(src)
+            x = r[src] if src in ("open", "high", "low", "close", "volume") else series([r], src)[0]
         inps.append("mkinp %s %s %s %s %s %s" % (n(r["open"]), n(r["high"]), n(r["low"]), n(r["close"]), n(r["volume"]),
                                                C.optlit(x, n)))
     try:
@@ -193,7 +196,7 @@ def gen_case(rng, ctx, kinds: List[str]) -> Dict:
     kind = rng.choice(kinds)
     n = rng.randint(3, 160 if ctx.thorough else 70)
     late = rng.choice([0, 0, 0, 1, 2, 7]) if kind in X.HAS_INPUT else 0
-    inputs = ("src",) if late else ("close", "close", "high", "src")
+    inputs = ("src", "dd.x") if late else ("close", "close", "high", "src", "dd.x")
     if not late and kind in ("SMA", "EMA", "RMA", "WMA", "STDEV", "STDEVTHRES"):
         inputs = inputs + ("volume", "zsrc", "zsrc")       # series that contain exact zeros
     spec = X.gen_spec(rng, kind, ctx.thorough, inputs=inputs)
